@@ -17,8 +17,10 @@ use std::io::Cursor;
 pub struct C16;
 
 fn gen_name(rng: &mut Rng, i: usize, xml_ok_only: bool) -> String {
-    let base = match rng.below(8) {
+    let base = match rng.below(9) {
         0 => "Sheet".to_string(),
+        // Latin-1 only (8-bit storage in xls); the byte pairs are also well-formed UTF-8
+        8 => "Vis\u{c3}\u{a9}le \u{c2}\u{a3}".to_string(),
         1 => "Données été".to_string(),
         2 => "A&B <c> \"q\" 'a'".to_string(),
         3 => "  two  spaces ".to_string(),
